@@ -66,6 +66,8 @@ class RVCheck(Check):
     mode = "sem"
 
     def decorate(self, rng, ev):
+        if ev.get("op") == "codeparse":
+            return ev
         if ev.get("op") == "pair" or ev["err"] or ev["panic"]:
             ev["states"], ev["csrkey"] = [], ""
             return ev
@@ -293,3 +295,58 @@ class C25(RVCheck):
 
     def validate(self, evgroups, tag):
         return RVCheck.validate(self, evgroups, tag)
+
+
+class C21(RVCheck):
+    pid = "C21"
+    mode = "sem"
+    nstates = 2
+    rule = ("code images: 1-3 non-overlapping blocks (unsorted on input) of 0-4 words drawn from valid words of many "
+            "mnemonics, one undecodable word, and a truncated tail of 1-3 bytes, at 4 image bases, RV64IMA and RV32IM; "
+            "parser.Parse must fail iff some 4-byte position holds an undecodable or truncated word; otherwise the "
+            "instructions must tile every block in address order with the bytes at their address, and the effects of "
+            "every instruction must equal RV!Exec at that address on 2 machine states; non-trivial = image with >= 2 "
+            "instructions; distinct by (config, image)")
+    assumptions = ["blocks do not overlap (the ELF loader rejects overlapping sections before parsing)", "2 machine states per instruction"]
+
+    def nontrivial_key(self, group, events):
+        e = events[0]
+        if e["err"] or len(e["ins"]) < 2:
+            return None
+        return repr((e["variant"], e["exts"], e["image"], e["addr"]))
+
+    def decorate(self, rng, ev):
+        for x in ev.get("ins", []):
+            pseudo = {"variant": ev["variant"], "keys": x["keys"], "bytes": x["bytes"]}
+            x["states"], x["csrkey"] = make_states(rng, pseudo, self.nstates)
+        return ev
+
+    def groups(self, tier, seed):
+        rng = random.Random(seed * 275604541 + 21)
+        n = 600 if tier == "quick" else 10000
+        gs = []
+        for i in range(n):
+            xlen, exts = rng.choice([(64, "MA"), (64, "MA"), (32, "M"), (64, "")])
+            ts = [t for t in T if valid_in(t, xlen, exts)]
+            nb = rng.choice([1, 1, 2, 3])
+            image, off = [], rng.choice([0, 4, 16])
+            for b in range(nb):
+                bs = []
+                for _ in range(rng.choice([0, 1, 2, 3, 4]) if nb > 1 else rng.choice([1, 2, 3, 4])):
+                    c = rng.random()
+                    if c < 0.9:
+                        bs += word_bytes(encode(rng.choice(ts), rng, xlen))
+                    elif c < 0.95:
+                        bs += word_bytes(rng.choice([0x00000000, 0xFFFFFFFF, 0x0000007F, 0x00007013 | 0x7000 << 0]))
+                    else:
+                        bs += word_bytes(rng.getrandbits(32))
+                if rng.random() < 0.08:
+                    bs += [rng.randrange(256) for _ in range(rng.choice([1, 2, 3]))]
+                if bs:
+                    image.append({"off": off, "bytes": bs})
+                off += len(bs) + rng.choice([0, 4, 8, 2])
+            rng.shuffle(image)
+            addr = rng.choice([0x1000, 0x80000000, 0x10000 if xlen == 32 else 0x7FFFFFFFF000])
+            gs.append([{"case": "c%d" % i, "op": "codeparse", "mode": "sem", "variant": xlen, "exts": exts,
+                        "addr": addr_bytes(addr), "bytes": [], "image": image, "lo": 0}])
+        return gs
